@@ -11,7 +11,7 @@ def run(ctx):
     units = False
     try:
         from cfront import helpers as H
-        H.run(ctx, tabs, names=["ShroudLenTrim", "ShroudStrCopy", "ShroudStrBlankFill", "ShroudStrAlloc", "ShroudStrArrayAlloc"])
+        H.run(ctx, tabs, names=["ShroudLenTrim", "ShroudStrCopy", "ShroudStrBlankFill", "ShroudStrAlloc", "ShroudStrArrayAlloc", "copy_string"])
         units = True
         ctx.trusted += [
             "mini-C front end (cfront/): parser for the helper subset, symbolic execution with (block, offset) pointers, "
